@@ -620,6 +620,18 @@ func (x *Exec) step(cfg *Config, f *Frame, in ssa.Instruction) (forks []*Config,
 			}
 			return nil, false
 		}
+		// cheap syntactic pruning: the condition (or its negation) is already
+		// a conjunct of the path condition
+		if known, val := x.pcDecides(st, c); known {
+			tgt := elseB
+			if val {
+				tgt = thenB
+			}
+			if !x.gotoBlock(cfg, f, tgt) {
+				return nil, true
+			}
+			return nil, false
+		}
 		other := cfg.clone()
 		other.st.assume(Not(c))
 		of := other.top()
@@ -1026,6 +1038,25 @@ func (x *Exec) storeInFrame(cfg *Config, name string, base Term) {
 		return
 	}
 	x.oblige(cfg, "store-in-frame", name, x.mayWrite(name, base), nil, token.NoPos)
+}
+
+// pcDecides: is c, or its negation, literally one of the (recent) assumptions
+// of the path? Only exact syntactic matches count.
+func (x *Exec) pcDecides(st *State, c Term) (bool, bool) {
+	nc := Not(c).S
+	lo := len(st.pc) - 400
+	if lo < 0 {
+		lo = 0
+	}
+	for i := len(st.pc) - 1; i >= lo; i-- {
+		switch st.pc[i].S {
+		case c.S:
+			return true, true
+		case nc:
+			return true, false
+		}
+	}
+	return false, false
 }
 
 // ---------------------------------------------------------------------------
